@@ -186,6 +186,11 @@ def relation_table(g):
         if a == 'Number' and b == 'Number':
             continue
         rels.append({'kind': 'op', 'name': f'{a} {op} {b}', 'op': op, 'args': [a, b], 'ret': c})
+    # compound assignments whose right-hand side has another quantity type (Position += Displacement ...): the value left in the
+    # left-hand side; same-type and numeric compound assignments are exercised for every type by the battery
+    for a, op, b in g.get('cops', []):
+        if a != b and b != 'Number':
+            rels.append({'kind': 'cop', 'name': f'{a} {op} {b}', 'op': op, 'args': [a, b], 'ret': a})
     for c, args in g['ctors']:
         rels.append({'kind': 'ctor', 'name': f'{c}({",".join(args)})', 'op': 'ctor', 'args': list(args), 'ret': c})
     for m in g.get('members', []):
@@ -204,6 +209,8 @@ def expr(r, qs):
     args = [qgen.mk(a, qs, 'x', str(9 * i)) for i, a in enumerate(r['args'])]
     if r['kind'] == 'op':
         return f'({args[0]}) {r["op"]} ({args[1]})'
+    if r['kind'] == 'cop':
+        return f'[&]{{ auto lhs = {args[0]}; lhs {r["op"]} ({args[1]}); return lhs; }}()'
     if r['kind'] == 'ctor':
         return f'{r["ret"]}<T>({", ".join(args)})'
     return f'({args[0]}).{r["op"]}({", ".join(args[1:])})'
